@@ -174,6 +174,7 @@ type gen struct {
 	sh       []*big.Int
 	small    []*big.Int
 	huge     []*big.Int
+	lowPush  bool // jumpyBytes with fewer PUSH opcodes (more reachable JUMPDESTs)
 	noGas    bool // search mode: the reference has no gas, so no GAS opcode and ample gas
 	hist     map[byte]int
 }
@@ -270,7 +271,21 @@ func (g *gen) gas() uint64 {
 func (g *gen) line(p *prog, input []byte) string {
 	p.link()
 	g.count(p.b)
-	return runLine(g.cfg(), g.gas(), p.b, input)
+	cfg := g.cfg()
+	// programs using PUSH0/MCOPY mostly run where those exist (else they only test "invalid opcode")
+	if cfg&2 == 0 && g.r.Chance(3, 4) {
+		for pc := 0; pc < len(p.b); pc++ {
+			o := p.b[pc]
+			if o == MCOPY || o == PUSH0 {
+				cfg |= 2
+				break
+			}
+			if o >= 0x60 && o <= 0x7f {
+				pc += int(o) - 0x5f
+			}
+		}
+	}
+	return runLine(cfg, g.gas(), p.b, input)
 }
 
 // fullGas: enough for every deterministic family under every fork configuration
@@ -470,6 +485,41 @@ func (g *gen) all(emit func(stream, line string)) {
 	for i := 0; i < 2500*scale; i++ {
 		emit("random", g.randomCode())
 	}
+	// 6b. every memorySize function of the live table, called directly (hook VerifC11MemSize):
+	// offsets/lengths from the small, huge and uint64-edge lattices, exact stack depth
+	memOps := []struct {
+		op    byte
+		depth int
+	}{{SHA3, 2}, {CALLDATACOPY, 3}, {CODECOPY, 3}, {0x3c, 4}, {RETURNDATACOPY, 3}, {MLOAD, 1}, {MSTORE, 2}, {MSTORE8, 2},
+		{MCOPY, 3}, {0xa0, 2}, {0xa2, 4}, {0xf0, 3}, {0xf1, 7}, {0xf2, 7}, {RETURN, 2}, {0xf4, 6}, {0xf5, 4}, {0xf7, 9}, {0xfa, 6}, {REVERT, 2}, {ADD, 2}}
+	for i := 0; i < 60*scale; i++ {
+		for _, mo := range memOps {
+			var sb strings.Builder
+			sb.WriteString(fmt.Sprintf("memsize %d %d", g.r.Intn(8), mo.op))
+			for k := 0; k < mo.depth; k++ {
+				var v *big.Int
+				switch g.r.Intn(6) {
+				case 0:
+					v = g.huge[g.r.Intn(len(g.huge))]
+				case 1:
+					v = big.NewInt(0)
+				case 2:
+					v = g.operand()
+				default:
+					v = g.small[g.r.Intn(len(g.small))]
+				}
+				sb.WriteString(" " + hx.Hex(v.Bytes()))
+			}
+			emit("memsize", sb.String())
+		}
+	}
+	// 6c. STATICCALL to the identity precompile: memory and return data after the call
+	win := []int{0, 0, 1, 15, 16, 17, 31, 32, 33, 48, 64, 65, 96, 100, 128, 200}
+	for i := 0; i < 600*scale; i++ {
+		mem := g.r.Bytes(g.r.Pick(0, 1, 31, 32, 33, 64, 96, 100, 160, 200))
+		emit("idcall", fmt.Sprintf("idcall %s %d %d %d %d", hx.Hex(mem), win[g.r.Intn(len(win))], win[g.r.Intn(len(win))],
+			win[g.r.Intn(len(win))], win[g.r.Intn(len(win))]))
+	}
 	// 7. the analysis alone
 	for i := 0; i < 400*scale; i++ {
 		code := g.jumpyBytes()
@@ -518,7 +568,11 @@ func (g *gen) jumpyBytes() []byte {
 	}
 	b := make([]byte, n)
 	for i := range b {
-		switch g.r.Intn(5) {
+		k := g.r.Intn(5)
+		if g.lowPush && (k == 1 || k == 2) && g.r.Chance(3, 4) {
+			k = g.r.Pick(0, 3)
+		}
+		switch k {
 		case 0:
 			b[i] = JUMPDEST
 		case 1:
@@ -554,7 +608,7 @@ func (g *gen) input() []byte {
 }
 
 func (g *gen) memOff(allowHuge bool) *big.Int {
-	if allowHuge && g.r.Chance(1, 14) {
+	if allowHuge && g.r.Chance(1, 40) {
 		return g.huge[g.r.Intn(len(g.huge))]
 	}
 	if g.r.Chance(1, 3) {
@@ -564,7 +618,7 @@ func (g *gen) memOff(allowHuge bool) *big.Int {
 }
 
 func (g *gen) memLen(allowHuge bool) *big.Int {
-	if allowHuge && g.r.Chance(1, 16) {
+	if allowHuge && g.r.Chance(1, 45) {
 		return g.huge[g.r.Intn(len(g.huge))]
 	}
 	if g.r.Chance(1, 5) {
@@ -663,7 +717,7 @@ func (g *gen) instr(p *prog, s *sim, memHeavy bool) {
 		p.push(g.memOff(true))
 		p.op(g.pick(CALLDATACOPY, CODECOPY))
 	case k < 95: // RETURNDATACOPY (return data is always empty here)
-		if g.r.Chance(1, 2) {
+		if g.r.Chance(3, 4) {
 			p.pushU(0)
 			p.pushU(0)
 		} else {
@@ -828,14 +882,14 @@ func (g *gen) branching() *prog {
 func (g *gen) randomCode() string {
 	n := g.r.Intn(60)
 	code := make([]byte, 0, n+40)
-	if g.r.Chance(2, 3) {
-		for i := 0; i < 1+g.r.Intn(5); i++ {
+	weighted := g.r.Chance(3, 4)
+	if weighted || g.r.Chance(1, 2) {
+		for i := 0; i < 3+g.r.Intn(7); i++ {
 			q := &prog{}
 			q.push(g.operand())
 			code = append(code, q.b...)
 		}
 	}
-	weighted := g.r.Chance(3, 4)
 	pool := []byte{ADD, MUL, SUB, DIV, SDIV, MOD, SMOD, ADDMOD, MULMOD, EXP, SIGNEXTEND, LT, GT, SLT, SGT, EQ, ISZERO, AND, OR, XOR,
 		NOT, BYTE, SHL, SHR, SAR, SHA3, CALLDATALOAD, CALLDATASIZE, CALLDATACOPY, CODESIZE, CODECOPY, RETURNDATASIZE, POP, MLOAD,
 		MSTORE, MSTORE8, JUMP, JUMPI, PC, MSIZE, GAS, JUMPDEST, MCOPY, PUSH0, PUSH1, PUSH1, PUSH2, 0x63, 0x7f, DUP1, 0x81, 0x82, SWAP1, 0x91,
@@ -864,24 +918,71 @@ func (g *gen) nested() string {
 	for i := 0; i < 1+g.r.Intn(6); i++ {
 		g.instr(p, s, g.r.Chance(1, 2))
 	}
-	// retSize retOff inSize inOff addr gas
-	p.push(big.NewInt(int64(g.r.Pick(0, 1, 31, 32, 33, 64, 100))))
-	p.push(g.small[g.r.Intn(len(g.small)-4)])
-	p.push(big.NewInt(int64(g.r.Pick(0, 1, 32, 33, 64, 96))))
-	p.push(g.small[g.r.Intn(len(g.small)-4)])
-	p.op(0x73)
-	p.op(calleeAddr.Bytes()...)
-	p.op(0x63, 0x0f, 0xff, 0xff, 0xff, 0xfa)
+	identity := g.r.Chance(1, 2)
+	inOff := g.small[g.r.Intn(len(g.small)-4)]
+	inSize := big.NewInt(int64(g.r.Pick(0, 1, 32, 33, 64, 96)))
+	retOff := g.small[g.r.Intn(len(g.small)-4)]
+	retSize := big.NewInt(int64(g.r.Pick(0, 1, 31, 32, 33, 64, 100)))
+	if identity {
+		// make sure the input window holds something recognisable
+		p.push(g.operand())
+		p.push(inOff)
+		p.op(MSTORE)
+		if g.r.Chance(2, 3) {
+			// output window away from the input window (the overlapping case is a recorded deviation)
+			retOff = new(big.Int).Add(inOff, big.NewInt(int64(128+32*g.r.Intn(4))))
+		}
+	}
+	// retSize retOff inSize inOff [value] addr gas
+	p.push(retSize)
+	p.push(retOff)
+	p.push(inSize)
+	p.push(inOff)
+	call := byte(0xfa)
+	if g.r.Chance(1, 3) {
+		call = 0xf1
+		p.pushU(0)
+	}
+	if identity {
+		p.pushU(4)
+	} else {
+		p.op(0x73)
+		p.op(calleeAddr.Bytes()...)
+	}
+	p.op(0x63, 0x0f, 0xff, 0xff, 0xff, call)
 	s.depth++
 	p.op(RETURNDATASIZE)
 	s.depth++
-	if g.r.Chance(2, 3) {
-		p.pushU(uint64(g.r.Pick(0, 1, 32, 64)))
+	// other opcodes run between the call and the look at its return data: random ones and
+	// writes aimed at the input / output windows
+	for i := 0; i < g.r.Intn(5); i++ {
+		switch g.r.Intn(4) {
+		case 0:
+			p.push(g.operand())
+			p.push(inOff)
+			p.op(MSTORE)
+		case 1:
+			p.push(g.operand())
+			p.push(new(big.Int).Add(inOff, big.NewInt(int64(g.r.Intn(40)))))
+			p.op(MSTORE8)
+		case 2:
+			p.pushU(uint64(g.r.Pick(1, 32, 40)))
+			p.pushU(uint64(g.r.Intn(8)))
+			p.push(inOff)
+			p.op(g.pick(CALLDATACOPY, CODECOPY))
+		default:
+			g.instr(p, s, true)
+		}
+	}
+	if g.r.Chance(4, 5) {
+		p.pushU(uint64(g.r.Pick(0, 1, 32, 33, 64)))
 		p.pushU(uint64(g.r.Pick(0, 0, 1, 32)))
-		p.pushU(uint64(g.r.Pick(0, 64, 128, 200)))
+		p.pushU(uint64(g.r.Pick(0, 64, 256, 300)))
 		p.op(RETURNDATACOPY)
 	}
-	for i := 0; i < g.r.Intn(5); i++ {
+	p.op(RETURNDATASIZE)
+	s.depth++
+	for i := 0; i < g.r.Intn(3); i++ {
 		g.instr(p, s, true)
 	}
 	p.dump(min(s.depth, 4), false)
